@@ -13,7 +13,7 @@ INVS = ["WindowRespected", "PacketBound", "NoOverGrant"]
 # the pinned tree: all three toggles off
 BASE = dict(UsersA={"a1", "a2"}, UsersB={"b1"}, Daemons="@{}", OpsA="@{}", OpsB="@{}", MaxCalls=1, W0=3, MaxPkt=2, PeerMax=2,
             Thresh=0, SendN=3, Codes={1}, ReadSizes={1, 2}, Modes={"block"}, Loss=False,
-            FixRace=False, FixSendall=False, FixCredit=False, Mut="none", SpinCap=3)
+            FixRace=False, FixSendall=False, FixCredit=False, Mut="none", SpinCap=3, HoldBack=False)
 U = 4032
 GEN = dict(BASE, OpsA={"send", "sendall", "send_err", "sendall_err", "recv"}, OpsB={"recv", "recv_err", "send", "send_err"},
            UsersB={"b1", "b2"}, MaxCalls=3, W0=10, Thresh=1, SendN=7, ReadSizes={1, 3, 12}, Modes={"block", "nonblock"})
